@@ -414,6 +414,11 @@ def main(argv=None):
             print('NOT-ENCODABLE shim self-test (the paths that reach these constructs are inconclusive): %s' % st['not_encodable'][:3])
         cfg = dict(DEFAULT_CFG[a.tier])
         cfg.update(getattr(hm, 'CONFIG', {}).get(a.tier, {}))
+        scale = float(os.environ.get('VERIF_BUDGET_SCALE', '1'))
+        if scale != 1:
+            # smoke runs of the deep tier (recorded in the evidence as the budget actually used)
+            cfg['budget_s'] = cfg['budget_s'] * scale
+            cfg['case_wall_s'] = cfg['case_wall_s'] * scale
         cases = hm.cases(a.tier, seed)
         if a.only:
             cases = [c for c in cases if a.only in json.dumps(c, default=str)]
